@@ -42,10 +42,14 @@ impl<BE: Backend> Scratch<BE> {
 pub trait VecZnxBigToRef<BE> { spec fn bigref(&self) -> VecZnxBig<&[u8], BE>; }
 impl<D: DataRef, BE> VecZnxBigToRef<BE> for VecZnxBig<D, BE> {
     open spec fn bigref(&self) -> VecZnxBig<&[u8], BE> {
-        VecZnxBig { data: bref(self.data), n: self.n, cols: self.cols, size: self.size, max_size: self.max_size, deps: self.deps, _phantom: core::marker::PhantomData }
+        VecZnxBig { data: bref(self.data), n: self.n, cols: self.cols, size: self.size, max_size: self.max_size, deps: self.deps, rad: self.rad, _phantom: core::marker::PhantomData }
     }
 }
 // union of the dependency sets of the active limbs of one column of a big accumulator / of a coefficient-domain vector
+// limb radix a coefficient-domain vector is expressed in: an uninterpreted attribute of the vector (a GLWE keeps `vrad(data) == base2k`, see glwe_radix_ok)
+pub uninterp spec fn vrad(v: VecZnx<&[u8]>) -> int;
+pub open spec fn glwe_radix_ok(g: GLWE<&[u8]>) -> bool { vrad(g.data) == g.base2k.0 }
+pub open spec fn big_cleared<D, BE>(v: VecZnxBig<D, BE>) -> bool { forall|i: int, j: int| #[trigger] v.dep(i, j) == ISet::<Src>::empty() }
 pub open spec fn big_col<BE>(a: VecZnxBig<&[u8], BE>, col: int) -> ISet<Src> { ISet::new(|s: Src| exists|l: int| 0 <= l < a.size && #[trigger] a.dep(col, l).contains(s)) }
 pub open spec fn znx_col(a: VecZnx<&[u8]>, col: int) -> ISet<Src> { ISet::new(|s: Src| exists|l: int| 0 <= l < a.size && #[trigger] depl(a.limb(col, l)).contains(s)) }
 
@@ -53,18 +57,20 @@ pub trait VecZnxDftApply<BE: Backend> {
     // limb j of the selected column of res = DFT(limb offset + j*step of a), zero past the source (proved for both reference backends, units vec_znx_dft*)
     fn vec_znx_dft_apply<D: DataMut, A: VecZnxToRef>(&self, step: usize, offset: usize, res: &mut VecZnxDft<D, BE>, res_col: usize, a: &A, a_col: usize)
         requires res_col < old(res).cols, a_col < a.sref().cols, old(res).n == a.sref().n, a.sref().wf(), step >= 1,
-        ensures final(res).n == old(res).n, final(res).cols == old(res).cols, final(res).size == old(res).size, final(res).max_size == old(res).max_size,
+        ensures final(res).n == old(res).n, final(res).cols == old(res).cols, final(res).size == old(res).size, final(res).max_size == old(res).max_size, final(res).rad@ == vrad(a.sref()),
             forall|j: int| 0 <= j < old(res).size ==> #[trigger] final(res).dep(res_col as int, j) == (if offset + j * step < a.sref().size { depl(a.sref().limb(a_col as int, offset + j * step)) } else { ISet::<Src>::empty() }),
             forall|i: int, j: int| (i != res_col || j < 0 || j >= old(res).size) ==> #[trigger] final(res).dep(i, j) == old(res).dep(i, j);
 }
 pub trait VecZnxIdftApplyConsume<BE: Backend> {
     fn vec_znx_idft_apply_consume<D: Data>(&self, a: VecZnxDft<D, BE>) -> (r: VecZnxBig<D, BE>)
-        ensures r.n == a.n, r.cols == a.cols, r.size == a.size, r.max_size == a.max_size, r.deps == a.deps;
+        ensures r.n == a.n, r.cols == a.cols, r.size == a.size, r.max_size == a.max_size, r.deps == a.deps, r.rad == a.rad;
 }
 pub trait VecZnxBigAddSmallAssign<BE: Backend> {
     fn vec_znx_big_add_small_assign<D: DataMut, A: VecZnxToRef>(&self, res: &mut VecZnxBig<D, BE>, res_col: usize, a: &A, a_col: usize)
         requires res_col < old(res).cols, a_col < a.sref().cols, old(res).n == a.sref().n, a.sref().wf(),
-        ensures final(res).n == old(res).n, final(res).cols == old(res).cols, final(res).size == old(res).size, final(res).max_size == old(res).max_size,
+            // same limb radix (the small vector is added limb-wise into the accumulator), unless the accumulator is still cleared: then it takes the operand's radix
+            vrad(a.sref()) == old(res).rad@ || big_cleared(*old(res)),
+        ensures final(res).n == old(res).n, final(res).cols == old(res).cols, final(res).size == old(res).size, final(res).max_size == old(res).max_size, final(res).rad@ == vrad(a.sref()),
             forall|j: int| 0 <= j < old(res).size ==> #[trigger] final(res).dep(res_col as int, j) == (if j < a.sref().size { old(res).dep(res_col as int, j).union(depl(a.sref().limb(a_col as int, j))) } else { old(res).dep(res_col as int, j) }),
             forall|i: int, j: int| (i != res_col || j < 0 || j >= old(res).size) ==> #[trigger] final(res).dep(i, j) == old(res).dep(i, j);
 }
@@ -72,7 +78,7 @@ pub trait VecZnxBigNormalizeTmpBytes { spec fn s_big_norm_tmp(&self) -> int; fn 
 pub trait VecZnxBigNormalize<BE: Backend>: VecZnxBigNormalizeTmpBytes {
     // every limb of the selected column of res is written from the active limbs of the selected column of a (carries flow through all of them)
     fn vec_znx_big_normalize<R: VecZnxToMut, A: VecZnxBigToRef<BE>>(&self, res: &mut R, res_base2k: usize, res_offset: i64, res_col: usize, a: &A, a_base2k: usize, a_col: usize, scratch: &mut Scratch<BE>)
-        requires old(res).smut_wf(), res_col < old(res).smut_cols(), a_col < a.bigref().cols, old(res).smut_n() == a.bigref().n, 1 <= res_base2k <= 62, 1 <= a_base2k <= 62,
+        requires old(res).smut_wf(), res_col < old(res).smut_cols(), a_col < a.bigref().cols, old(res).smut_n() == a.bigref().n, 1 <= res_base2k <= 62, 1 <= a_base2k <= 62, a.bigref().rad@ == a_base2k,
             old(scratch).avail >= self.s_big_norm_tmp(),
         ensures final(scratch).avail == old(scratch).avail,
             forall|jj: int| 0 <= jj < old(res).smut_size() ==> depl(#[trigger] final(res).smut_limb(res_col as int, jj)) == big_col(a.bigref(), a_col as int),
@@ -100,9 +106,10 @@ pub trait GLWENormalize<BE: Backend> {
     spec fn s_glwe_norm_tmp(&self) -> int;
     fn glwe_normalize_tmp_bytes(&self) -> (r: usize) ensures r == self.s_glwe_norm_tmp();
     fn glwe_normalize<R: GLWEToMut, A: GLWEToRef>(&self, res: &mut R, a: &A, scratch: &mut Scratch<BE>)
-        requires old(res).gm_wf(), 1 <= old(res).gm_cols() <= u32::MAX, old(res).gm_n() <= u32::MAX, glwe_ok(a.gref()), old(res).gm_n() == a.gref().data.n, old(res).gm_cols() == a.gref().data.cols,
+        requires glwe_radix_ok(a.gref()), old(res).gm_wf(), 1 <= old(res).gm_cols() <= u32::MAX, old(res).gm_n() <= u32::MAX, glwe_ok(a.gref()), old(res).gm_n() == a.gref().data.n, old(res).gm_cols() == a.gref().data.cols,
             1 <= old(res).gm_base2k().0 <= 62, 1 <= a.gref().base2k.0 <= 62, old(scratch).avail >= self.s_glwe_norm_tmp(),
         ensures final(res).gm_n() == old(res).gm_n(), final(res).gm_cols() == old(res).gm_cols(), final(res).gm_size() == old(res).gm_size(), final(res).gm_wf(), final(res).gm_base2k() == old(res).gm_base2k(),
             final(scratch).avail == old(scratch).avail,
-            forall|i: int, jj: int| 0 <= i < old(res).gm_cols() && 0 <= jj < old(res).gm_size() ==> depl(#[trigger] final(res).gm_limb(i, jj)) == znx_col(a.gref().data, i);
+            forall|i: int, jj: int| 0 <= i < old(res).gm_cols() && 0 <= jj < old(res).gm_size() ==> depl(#[trigger] final(res).gm_limb(i, jj)) == znx_col(a.gref().data, i),
+            glwe_radix_ok(final(res).gref());
 }
